@@ -18,7 +18,7 @@ SIDS = ["Sa", "Sb", "Sc", "Sd", "Se", "Sf", "Sg", "Sh", "Si", "Sj", "Sk", "Sl"]
 
 def random_scenario(rng: random.Random, nsims=(2, 4), nconns=(1, 5), until=(2, 4), groups=True, siblings=True,
                     weak=0.4, p_async=0.0, shifts=(0, 0, 0, 1, 1, 2), selfloops=0.1, maxloop=3,
-                    parallel_delays=True, types=S.TYPES, p_two_entities=0.0, p_shift_weak=0.15):
+                    parallel_delays=True, types=S.TYPES, p_two_entities=0.0, p_shift_weak=0.15, p_extra_init=0.0):
     n = rng.randint(*nsims)
     pool = [[]]
     if groups:
@@ -50,6 +50,10 @@ def random_scenario(rng: random.Random, nsims=(2, 4), nconns=(1, 5), until=(2, 4
             if shift or wk or rng.random() < 0.7:
                 continue
         init = (shift > 0 or wk) and not S.is_trig(da)
+        if not init and p_extra_init and S.is_pers(sa) and not S.is_trig(da) and rng.random() < p_extra_init:
+            init = True  # initial data on an ORDINARY connection ("not needed", but declared: it holds until the first value is due)
+        if not init and p_extra_init and not S.is_pers(sa) and S.is_trig(da) and shift > 0 and rng.random() < p_extra_init:
+            init = True  # ... and on a time-shifted EVENT connection into a trigger input (mosaik only warns that it is not needed)
         se = f"E{rng.randrange(sa_.get('nent', 1))}"
         de = f"E{rng.randrange(sb_.get('nent', 1))}"
         # one source attribute of a source entity per destination slot
